@@ -7,6 +7,7 @@ import (
 	"github.com/hydraide/hydraide/app/core/hydra/swamp"
 	"github.com/hydraide/hydraide/app/core/hydra/swamp/treasure"
 	"github.com/hydraide/hydraide/app/core/hydra/swamp/treasure/msgpackpatch"
+	"github.com/hydraide/hydraide/app/verifhook"
 	hydrapb "github.com/hydraide/hydraide/sdk/go/hydraidego/v3/hydraidepbgo"
 	"google.golang.org/grpc/codes"
 	"google.golang.org/grpc/status"
@@ -135,6 +136,9 @@ func patchTreasuresOneSwamp(ctx context.Context, g Gateway, in *hydrapb.PatchTre
 			opts.Meta = protoMetaToSwampMeta(patch.GetMeta())
 		}
 
+		if verifhook.Enabled {
+			verifhook.Point("cap.patch", swampObj, patch.GetKey(), capPredicate != nil)
+		}
 		res, perr := swampObj.PatchFields(patch.GetKey(), ops, cond, opts)
 		if perr != nil {
 			// Internal error surfaces as INTERNAL_ERROR status, not as a
@@ -183,7 +187,13 @@ func capPreCount(swampObj swamp.Swamp, predicate func(treasureForCount) bool) (i
 	adapted := func(t treasure.Treasure) bool {
 		return predicate(t)
 	}
+	if verifhook.Enabled {
+		verifhook.Point("cap.pre", swampObj)
+	}
 	count := swampObj.CountMatchingTreasures(adapted)
+	if verifhook.Enabled {
+		verifhook.Point("cap.mid", swampObj)
+	}
 	// Cap-bearing patch flows serialise on swamp.capMu — but the swamp
 	// interface does not expose it directly. Acquire it via the
 	// public LockCapMu / UnlockCapMu accessors added on the swamp
